@@ -3,6 +3,7 @@ import Jrpc.Auth
 import Jrpc.Backoff
 import Jrpc.Frames
 import Jrpc.Errors
+import Jrpc.Call
 /-
   Jrpc.Ops — dispatch of driver operations onto the model's executable definitions.
 -/
@@ -171,6 +172,50 @@ def opErrors (j : Json) : R Json := do
     | .typed t c => Json.mkObj [("k", "typed"), ("name", t.name), ("ptr", t.ptr), ("content", c)]
   return Json.mkObj [("val", optJ Json.str v), ("err", cej)]
 
+/-- op "call": one proxy call through client params → wire → server args → result path, executed on
+    argument *indices* (token k = argument k; a custom encoder adds 1000, its decoder removes it; an
+    argument the oracle says does not round-trip is `none`). -/
+def opCall (j : Json) : R Json := do
+  let sj ← fld j "sig"
+  let s : Call.Sig := {
+    hasCtx := boolD sj "ctx" false, ptypes := ← strList (← fld sj "ptypes"), raw := boolD sj "raw" false,
+    out := ← outShape (← str sj "out"), vty := strD sj "vty" "" }
+  let custom ← strList (fldD j "customTypes" (Json.arr #[]))
+  let bad ← (arrD j "badArgs").mapM (·.getNat?)           -- argument indices that do not round-trip
+  let c : Call.Codec Nat Nat := {
+    marshal := fun v => if bad.contains (v % 1000) then none else some v
+    unmarshal := fun _ jv => some jv
+    encoder := fun t => if custom.contains t then some (fun v => some (v + 1000)) else none
+    decoder := fun t => if custom.contains t then some (fun jv => if jv ≥ 1000 then some (jv - 1000) else none) else none
+    zero := fun _ => 999 }
+  let n := s.ptypes.length
+  let args : List (Call.Arg Nat) :=
+    (if s.hasCtx then [Call.Arg.ctx] else []) ++
+      (if s.raw then [Call.Arg.rawParams "RAW"] else (List.range n).map Call.Arg.val)
+  let argJ : Call.Arg Nat → Json
+    | .ctx => "ctx"
+    | .val v => Json.mkObj [("arg", v)]
+    | .rawParams t => Json.mkObj [("raw", t)]
+  let wire := Call.clientParams c s args
+  let reached := wire.bind (Call.serverArgs c s)
+  let wireJ : Json := match wire with
+    | none => Json.null
+    | some (.raw t) => Json.mkObj [("raw", t)]
+    | some (.arr es) => Json.arr (es.map (fun (e : Nat) => (e : Json))).toArray
+  let failed := boolD j "handlerFails" false
+  let resultBad := boolD j "resultBad" false
+  let c2 : Call.Codec Nat Nat := { c with marshal := fun v => if resultBad then none else some v }
+  let ret : Call.HRet Nat := .vals (if s.out.hasVal then some 500 else none) failed
+  let outJ : Json := match reached with
+    | none => Json.null
+    | some _ =>
+      match Call.callerOut c2 s ret with
+      | none => "client-error"
+      | some o => Json.mkObj [
+          ("val", match o.val with | none => Json.null | some 500 => "rt" | some 999 => "zero" | some _ => "other"),
+          ("err", optJ (fun (b : Bool) => (b : Json)) o.err)]
+  return Json.mkObj [("wire", wireJ), ("slots", optJ (fun l => Json.arr (l.map argJ).toArray) reached), ("caller", outJ)]
+
 def run (j : Json) : R Json := do
   match (← str j "op") with
   | "http" => opHttp j
@@ -180,6 +225,7 @@ def run (j : Json) : R Json := do
   | "backoff" => opBackoff j
   | "frames" => opFrames j
   | "errors" => opErrors j
+  | "call" => opCall j
   | "authhttp" => opAuthHttp j
   | op => throw s!"unknown op {op}"
 
